@@ -19,7 +19,9 @@ ArrayDescsOf(sh) ==
          (IF sh \in GeomShapes THEN {D("array", sh, "num", g, i) : g \in GeomLabels(sh), i \in BOOLEAN}
           ELSE IF Size(sh) = 1 THEN {D("array", sh, e, "na", i) : e \in {"pos", "neg"}, i \in BOOLEAN} \cup {D("array", sh, "zero", "na", TRUE)}
           ELSE {D("array", sh, e, "na", i) : e \in {"pos", "zero", "neg", "mixed"}, i \in BOOLEAN})
-Descs == UNION {ArrayDescsOf(sh) : sh \in Shapes}
+\* index arrays with an index that is not a vertex of the (4-vertex) base mesh: relevant for `faces` only
+OobDescs == {D("array", sh, "oob", "na", TRUE) : sh \in {s \in Shapes : Len(s) = 2 /\ s[2] = 3 /\ s[1] >= 1}}
+Descs == UNION {ArrayDescsOf(sh) : sh \in Shapes} \cup OobDescs
     \cup {D("none", <<>>, "na", "na", FALSE), D("object", <<>>, "na", "na", FALSE), D("ragged", <<>>, "na", "na", FALSE), D("complex", <<>>, "na", "na", FALSE)}
     \cup {D("bool", <<>>, e, "na", FALSE) : e \in {"pos", "zero"}}
     \cup {D(k, <<>>, e, "na", FALSE) : k \in {"int", "float"}, e \in {"pos", "zero", "neg"}}
@@ -33,6 +35,7 @@ ForcedInts(v) == v.kind = "array" /\ Size(v.shape) = 1 /\ v.entries = "zero"    
 \* of the same descriptor and logs what it built)
 Relevant(c, a, v) == /\ (v.geom \in {"na", "ok"} \/ a \in {"dimension", "vertices"})
                      /\ (a = "faces" \/ v.ints = ForcedInts(v))
+                     /\ (v.entries = "oob" => a = "faces")
 Triples == {t \in Pairs \X Descs : Relevant(t[1][1], t[1][2], t[2])}
 
 Kinds == {"na", "none", "float", "array", "rotation", "str", "callable"}
